@@ -8,71 +8,10 @@ verus! {
 
 global size_of usize == 8;
 
-// N18: types the extracted function never inspects are opaque stand-ins (Face, Image, Glyph, ViewContext);
-// CellKind and Cell themselves are extracted verbatim.
-#[verifier::external_body] pub struct Face { _p: u8 }
-#[verifier::external_body] pub struct Image { _p: u8 }
-#[verifier::external_body] pub struct Glyph { _p: u8 }
-#[verifier::external_body] pub struct ViewContext { _p: u8 }
-
 //@ item struct Position src=src/terminal.rs
 //@ item struct Size src=src/terminal.rs
-//@ item enum CellKind
-//@subst N1 remaining derives dropped (Clone/PartialEq/Eq need impls of the opaque stand-ins) /#\[derive\([^)]*\)\]//
-//@ item struct Cell
-//@subst N1 remaining derives dropped (Clone/PartialEq/Eq need impls of the opaque stand-ins) /#\[derive\([^)]*\)\]//
 
-// std helpers used by the body
-#[verifier::external_body]
-fn max(a: usize, b: usize) -> (r: usize) ensures r == (if a >= b { a } else { b }) { std::cmp::max(a, b) }
-#[verifier::external_body]
-fn min(a: usize, b: usize) -> (r: usize) ensures r == (if a <= b { a } else { b }) { std::cmp::min(a, b) }
-
-impl Cell {
-    // what Cell::size returns (unicode-width / glyph / image geometry): any size - the layout contract below
-    // holds whatever it is
-    pub uninterp spec fn spec_size(&self, ctx: &ViewContext) -> Size;
-    #[verifier::external_body]
-    pub fn size(&self, ctx: &ViewContext) -> (r: Size)
-        ensures r == self.spec_size(ctx),
-    { unimplemented!() }
-
-    pub closed spec fn is_char(&self, c: char) -> bool { self.kind == CellKind::Char(c) }
-    pub closed spec fn is_special(&self) -> bool { self.is_char('\n') || self.is_char('\r') || self.is_char('\t') }
-
-    //@ fn impl Cell :: layout ret=r
-    //@+ requires
-    //@+     // writer invariant and "the numbers are screen coordinates" (no usize overflow)
-    //@+     old(cursor).col <= max_width, old(size).width <= max_width,
-    //@+     old(cursor).row < 0x1_0000_0000_0000, old(size).height < 0x1_0000_0000_0000, max_width < 0x1_0000_0000_0000,
-    //@+     self.spec_size(ctx).height < 0x1_0000_0000_0000, self.spec_size(ctx).width < 0x1_0000_0000_0000,
-    //@+ ensures
-    //@+     // invariant preserved; the tracked size is a growing bounding box inside the available width
-    //@+     final(cursor).col <= max_width, final(size).width <= max_width,
-    //@+     final(size).width >= old(size).width, final(size).height >= old(size).height,
-    //@+     final(cursor).row >= old(cursor).row, final(cursor).row <= old(cursor).row + 1,
-    //@+     ({ let cs = self.spec_size(ctx); let fits = old(cursor).col + cs.width <= max_width; let empty = cs.height == 0 || cs.width == 0;
-    //@+        match r {
-    //@+            Some(pos) => {
-    //@+                &&& !self.is_special() && !empty
-    //@+                // placed at the cursor when it fits, else (wrapping only) at the start of the next line
-    //@+                &&& (if fits { pos == *old(cursor) && final(cursor).col == pos.col + cs.width && final(cursor).row == pos.row }
-    //@+                     else { wraps && pos.row == old(cursor).row + 1 && pos.col == 0 && final(cursor).row == pos.row
-    //@+                            && final(cursor).col == (if cs.width <= max_width { cs.width } else { max_width }) })
-    //@+                // the bounding box covers the placed cell
-    //@+                &&& final(size).height >= pos.row + cs.height
-    //@+                &&& final(size).width >= (if pos.col + cs.width <= max_width { pos.col + cs.width } else { max_width as int })
-    //@+            },
-    //@+            // nothing is placed exactly for: newline / CR / tab, zero-sized cells, and overflow with wrapping disabled
-    //@+            None => self.is_special() || empty || (!fits && !wraps),
-    //@+        } }),
-    //@+     // newline moves to the start of the next line and accounts the finished line in the box
-    //@+     self.is_char('\n') ==> (final(cursor).col == 0 && final(cursor).row == old(cursor).row + 1 && final(size).height >= old(cursor).row + 1 && final(size).width >= old(cursor).col),
-    //@+     self.is_char('\r') ==> (final(cursor).col == 0 && final(cursor).row == old(cursor).row && *final(size) == *old(size)),
-    //@+     // tab advances to the next multiple of 8, clipped to the width
-    //@+     self.is_char('\t') ==> (final(cursor).row == old(cursor).row && final(cursor).col > old(cursor).col || old(cursor).col == max_width)
-    //@+         && (self.is_char('\t') ==> final(cursor).col <= old(cursor).col + 8),
-}
+//@ include cell_model.inc
 
 } // verus!
 
